@@ -220,13 +220,13 @@ class Rat:
                     r = _expand(num) / _expand(den)
                     self.num, self.den = r.num, r.den
                     return
-            # cheap cancellation: num == c*den
-            if len(num) == len(den):
-                k0 = min(den)
-                if k0 in num:
-                    c = num[k0] / den[k0]
-                    if all(num.get(k) == c * v for k, v in den.items()):
-                        num, den = {ONE_M: c}, ONE_P
+            # exact division num / den when it leaves no remainder
+            q = _poly_divide(num, den)
+            if q is not None:
+                num, den = q, ONE_P
+                if _needs_expand(num):
+                    r = _expand(num)
+                    num, den = r.num, r.den
         self.num, self.den = num, den
 
     # -- arithmetic ---------------------------------------------------
@@ -389,6 +389,63 @@ class Rat:
 
     def __repr__(self):
         return show(self)
+
+
+def _fold_primes(m, c):
+    """Normalise one term: integer parts of prime powers go to the coefficient."""
+    out = []
+    for k, e in m:
+        a = TABLE.atoms[k]
+        if a.kind == 'prime' and (e >= 1 or e < 0):
+            n = e.numerator // e.denominator
+            c = c * F(int(a.name)) ** n
+            e = e - n
+            if e:
+                out.append((k, e))
+        elif a.kind == 'base' and (e >= 1 or e <= -1):
+            return None, None
+        else:
+            out.append((k, e))
+    return tuple(out), c
+
+
+def _poly_divide(num: dict, den: dict, limit: int = 400):
+    """Quotient of num by den if the division is exact, else None."""
+    atoms = sorted({k for p in (num, den) for m in p for k, _ in m})
+
+    def key(m):
+        d = dict(m)
+        return tuple(d.get(a, 0) for a in atoms)
+
+    lead_d = max(den, key=key)
+    cd = den[lead_d]
+    inv = _mono_pow(lead_d, -1)
+    rem = dict(num)
+    quo: dict = {}
+    for _ in range(limit):
+        if not rem:
+            return quo
+        lead_r = max(rem, key=key)
+        qm = _mono_mul(lead_r, inv)
+        qc = rem[lead_r] / cd
+        # the quotient term times den must cancel the leading remainder term
+        # and every product monomial must be ordered below it
+        for m, c in den.items():
+            pm, pc = _fold_primes(_mono_mul(m, qm), qc * c)
+            if pm is None:
+                return None
+            v = rem.get(pm, 0) - pc
+            if v == 0:
+                rem.pop(pm, None)
+            else:
+                rem[pm] = v
+        nqm, nqc = _fold_primes(qm, qc)
+        if nqm is None:
+            return None
+        quo[nqm] = quo.get(nqm, 0) + nqc
+        if len(rem) > 4 * (len(num) + len(den)) + 8:
+            return None
+    return None
 
 
 def _needs_expand(poly) -> bool:
@@ -678,6 +735,9 @@ class Mat:
 
     def subst(self, mapping):
         return _subst(self, mapping)
+
+    def atoms(self):
+        return Rat.atoms(self)  # type: ignore[arg-type]
 
     def __repr__(self):
         return show(self)
